@@ -51,7 +51,7 @@ static Scenario make_c08(std::map<std::string, long> const& cfg)
   };
   for (size_t t = 0; t < sh->size(); ++t)
     sc.frontends.push_back(
-      [t, sh, la, lb](World& w, Scenario const&)
+      [t, sh, la, lb](World& w, Scenario const& s)
       {
         int const tid = static_cast<int>(t) + 1;
         int seq = 0;
@@ -67,7 +67,9 @@ static Scenario make_c08(std::map<std::string, long> const& cfg)
             std::string res;
             try
             {
-              res = log_id(l, tid, seq, padn) ? "true" : "false";
+              // every other statement passes its padding as C strings (string-length cache), the rest as a string_view
+              // cstr=1: the padding travels as C strings (per-thread string-length cache), else as a string_view
+              res = (s.c("cstr", 0) ? log_id_c(l, tid, seq, padn > 4 ? padn - 1 : padn) : log_id(l, tid, seq, padn)) ? "true" : "false";
             }
             catch (QuillError const&)
             {
@@ -164,6 +166,29 @@ static Scenario make_c08(std::map<std::string, long> const& cfg)
       }
     }
     check_delivery(w, 1, exp, "delivered-vs-result-mismatch");
+    // delivered statements are complete and uncorrupted: "<id>|<padding of one repeated letter>[ccc]"
+    for (auto const* r : w.of_sink(1))
+    {
+      std::string const& m = r->msg;
+      size_t bar = m.find('|');
+      if (bar == std::string::npos || m.find("|bt") != std::string::npos) continue;
+      std::string body = m.substr(bar + 1);
+      bool ok = true;
+      if (!body.empty() && body[0] == 'c')
+      {
+        // C-string form: n x 'c' followed by "ccc": only c's, and the length must be one of the legal ones
+        for (char ch : body)
+          if (ch != 'c') ok = false;
+        if (!(body.size() == 3 || body.size() == 83 + 3 || body.size() == 299 + 3)) ok = false;
+      }
+      else
+      {
+        for (char ch : body)
+          if (ch != 'p') ok = false;
+        if (!(body.size() == 0 || body.size() == 84 || body.size() == 300)) ok = false;
+      }
+      if (!ok) w.fail("delivered-statement-corrupted", "sink received '" + m.substr(0, 60) + "' (" + std::to_string(body.size()) + " padding bytes)");
+    }
     if (bounded)
     {
       long reported = 0;
